@@ -131,6 +131,16 @@ theorem sim_next {k : K} {a : A} {last : Option Int} (h : Sim k a last) (T : Int
           · have : ¬ (some d = some f) := fun e' => e (Option.some.inj e').symm
             simp [e, this]
 
+/-- the scope clauses for a pass, unpacked -/
+theorem opOk_next {a : A} {last : Option Int} {T : Int} {s : List (Call Int)} {ret : Ret}
+    (hok : opOk a last (.next T s ret) = true) :
+    (∀ T0, last = some T0 → T0 ≤ T) ∧ (∀ x ∈ a.sleepers, T - x.2 < 2147483648)
+    ∧ dueInWindow T s = true ∧ unsatisfied T s ≤ 1 := by
+  simp only [opOk, Bool.and_eq_true, decide_eq_true_eq, List.all_eq_true] at hok
+  obtain ⟨⟨⟨hmono, hw⟩, hun⟩, hwin⟩ := hok
+  refine ⟨?_, hw, hwin, hun⟩
+  intro T0 e; subst e; simpa using hmono
+
 /-- **one call of the history** -/
 theorem sim_step {k : K} {a : A} {last : Option Int} (h : Sim k a last) (op : Op Int) (hok : opOk a last op = true) :
     (Model.Fibre.step k (op.map w32)).2 = (Spec.Sched.step a op).2
